@@ -226,6 +226,9 @@ func (c *Case) driverLine(recs map[int]*Rec) string {
 			sb.WriteString("c:" + optStr(o.C.QueueSize) + "," + optStr(o.C.MaxWait) + "," + optStr(o.C.MaxBuf) + "," + optStr(o.C.ZipMin))
 		}
 	}
+	if c.Fault != "" {
+		sb.WriteString(" " + c.Fault)
+	}
 	return sb.String()
 }
 
